@@ -25,6 +25,28 @@ def lines_tc(data, before=b"", after=b""):
     return (before, parts, [True] * len(parts), after)
 
 
+def marker_matrix(explore, quick, others=("minimize-around", "minimize-balanced", "minimize-collapse-brace")):
+    """marker files: what stands in front of the DDBEGIN line x the line terminator used THROUGHOUT the file (so also on
+    the last line before the DDEND line) x a terminator at the very end or none, all five splitters"""
+    heads = [b"", b"\xef\xbb\xbf", b"\xff\xfe lead\xe9", b"head "]
+    terms = [b"\n", b"\r\n", b"\r", b"\xc2\x85"]
+    k1d = 0
+    for head in heads:
+        for term in terms:
+            for last in (term, b""):
+                data = head + term.join([b"// DDBEGIN", b"l1 = 'a';", b"KEEP", b"// DDEND", b"tail"]) + last
+                for atom in ("line", "char", "symbol", "jsstr", "attrs"):
+                    k1d += 1
+                    if quick and k1d % 3 and not (atom == "char" and last):
+                        continue
+                    explore("minimize", {}, None, file0=data, atom=atom, load=True, stream="marker-matrix-" + atom,
+                            max_runs=5 if quick else 40)
+                    if not quick or k1d % 5 == 0:
+                        for strategy in others:
+                            explore(strategy, {}, None, file0=data, atom=atom, load=True, stream="marker-matrix-" + atom,
+                                    max_runs=3 if quick else 20)
+
+
 def driver_universe(ex, ck, aborts=False, budget=None):
     """Exercise Lithium.run over all strategies.  aborts=True adds an exception at every test
     index (C02)."""
@@ -86,6 +108,7 @@ def driver_universe(ex, ck, aborts=False, budget=None):
                 for strategy in others[3:]:
                     explore(strategy, {}, None, file0=data, atom=atom, load=True, stream="loaded-" + atom,
                             replay=strategy != "replace-properties-by-globals", max_runs=3 if quick else 30, cap=200)
+    marker_matrix(explore, quick, others[:3])
     # 2. the other strategies drive the model DRIVER through their recorded proposals
     brace_alpha = (b"{\n", b"}\n", b"x\n", b"(\n")
     for strategy in others[:2]:
@@ -133,6 +156,15 @@ def driver_universe(ex, ck, aborts=False, budget=None):
     # 3b. no directory chosen in advance: Lithium.run creates ./tmp1 itself (hooks, numbering, copies as before)
     for tc in small_layouts(3, with_nonred=False):
         explore("minimize", {}, tc, stream="minimize-auto-tmp", max_runs=30 if quick else 300, auto_tmp=True)
+    # 3c. the test (or the program it starts) CHANGES the testcase file while it runs - appends to it, empties it, deletes
+    #     it: what Lithium keeps, logs and restores is the candidate it wrote, never what the test left behind
+    for mode in ("append", "truncate", "delete"):
+        for strategy, tcs_ in (("minimize", list(small_layouts(3, with_nonred=False))[-2:]),
+                               ("minimize-around", [lines_tc(b"(\nx\n)\ny\n")]), ("minimize-balanced", [lines_tc(b"{\na\n}\nb\n")]),
+                               ("minimize-collapse-brace", [lines_tc(b"{\n\n}\nz\n")])):
+            for tc in tcs_:
+                explore(strategy, {}, tc, stream="test-changes-file", replay=strategy not in ("minimize", "minimize-collapse-brace"),
+                        max_runs=12 if quick else 120, scribble=mode)
     # 4. seeded random verdicts on larger inputs
     for i in range(30 if quick else 300):
         n = r.randint(5, 40)
@@ -180,13 +212,15 @@ def session_universe(ck, oracle, quick=True, strategies=("minimize", "minimize-a
                          f"files of the first run in the shared temp dir: {sorted(lost)}",
                          {"session": [s1, s2, v1, v2, f1.hex(), f2.hex()], "first_run_files": sorted(prev),
                           "second_run_files": sorted(now)})
+        offset = 0
         for step, run in zip(steps, runs):
             ck.count("session")
             ck.nontrivial(("session", s1, s2, v1[:4], v2[:4], f1, f2))
             ctx = {"strategy": step["strategy"], "cfg": {}, "tc": run.loaded, "file0": step["file0"],
                    "verdicts": step["verdict"], "clock": [], "atom": "line", "exc_class": "TestRaised", "load": True,
-                   "session": [s1, s2, v1, v2, f1.hex(), f2.hex()]}
+                   "session": [s1, s2, v1, v2, f1.hex(), f2.hex()], "offset": offset}
             oracle(ck, ctx, run)
+            offset += sum(1 for _, _, a_ in run.seen if a_ in "YN")     # a test that raised consumed no number
     # the testcase file cannot be OPENED for writing for a while (busy / permission), then works again
     for k in (1, 2, 3):
         for times in (1, 3, 5):
@@ -218,3 +252,22 @@ def session_universe(ck, oracle, quick=True, strategies=("minimize", "minimize-a
                    "verdicts": v, "clock": [], "atom": "line", "exc_class": "TestRaised", "load": True,
                    "write_fault": k}
             oracle(ck, ctx, run)
+
+
+def reuse_universe(ex, ck, strategies=("minimize", "minimize-around", "minimize-balanced", "minimize-collapse-brace")):
+    """the SAME strategy object reduces one file and then another (a library user keeping `lithium.strategy`, a second
+    pass): the second run is compared - traces against the model of a fresh strategy, and every oracle of the caller -
+    as if the object were new.  Warm-up files smaller / larger than the file of the run, option grid with --min/--max"""
+    quick = ck.tier == "quick"
+    warm = [(b"a\n", "Y"), (b"a\nb\nc\n", "YN" * 20), (b"{\n}\n" * 20, "Y" + "NY" * 100), (b"x\n" * 70, "Y" * 200)]
+    files = [b"".join(b"%d\n" % i for i in range(20)), b"{ a\n(\nx\n)\n} b\ny\n{\n\n}\n", b"a\nb\n"]     # (distinct atoms: block positions are unambiguous)
+    cfgs = [{}, {"min": 4}, {"min": 2, "max": 8}, {"repeat": "always"}, {"max": 4, "repeat": "never"}]
+    for strategy in strategies:
+        for wi, (wdata, wv) in enumerate(warm):
+            for fi, data in enumerate(files):
+                for ci, cfg in enumerate(cfgs):
+                    if quick and (wi + fi + ci + len(strategy)) % 3:
+                        continue
+                    for v in ("Y" * 400, "Y" + "NY" * 200, "Y" + "N" * 400):
+                        ex.one(strategy, cfg, None, data, v, load=True, stream="same-strategy-object",
+                               replay=strategy in ("minimize-around", "minimize-balanced"), warmup=(wdata, wv), cap=1500)
